@@ -34,10 +34,11 @@ theorem bDependencies_d2020 (env : VEnv) (hd : env.draft = .d2020) (rec : Go.Rec
 
 theorem bArray_of_bItems (env : VEnv) (rec : Go.Rec) (stack : List NodeId) (f : Node → Node) (n : Node)
     (hi : ∀ xs anns, bItems env rec stack (f n) xs anns = bItems env rec stack n xs anns)
-    (h1 : ∀ xs anns, bContains rec stack (f n) xs anns = bContains rec stack n xs anns)
-    (h2 : ∀ xs cnt, bArrayLimits (f n) xs cnt = bArrayLimits n xs cnt)
+    (h1 : ∀ xs anns, bContains env.draft rec stack (f n) xs anns = bContains env.draft rec stack n xs anns)
+    (h2 : ∀ xs cnt, bArrayLimits env.draft (f n) xs cnt = bArrayLimits env.draft n xs cnt)
     (h3 : ∀ xs, bUnique env (f n) xs = bUnique env n xs)
-    (h4 : ∀ xs anns, bUnevaluatedItems rec stack (f n) xs anns = bUnevaluatedItems rec stack n xs anns)
+    (h4 : ∀ xs anns, bUnevaluatedItems env.draft rec stack (f n) xs anns =
+      bUnevaluatedItems env.draft rec stack n xs anns)
     (inst : GoVal) (anns : Anns) : bArray env rec stack (f n) inst anns = bArray env rec stack n inst anns := by
   unfold bArray
   simp only [hi, h1, h2, h3, h4]
@@ -47,7 +48,8 @@ theorem bObject_of_bDependencies (env : VEnv) (rec : Go.Rec) (stack : List NodeI
     (h1 : ∀ info kvs, bProps env rec stack (f n) info kvs = bProps env rec stack n info kvs)
     (h2 : (f n).propertyNames = n.propertyNames)
     (h3 : ∀ info kvs, bObjectLimits (f n) info kvs = bObjectLimits n info kvs)
-    (h4 : ∀ kvs anns, bUnevaluatedProps rec stack (f n) kvs anns = bUnevaluatedProps rec stack n kvs anns)
+    (h4 : ∀ kvs anns, bUnevaluatedProps env.draft rec stack (f n) kvs anns =
+      bUnevaluatedProps env.draft rec stack n kvs anns)
     (info : Option Info) (inst : GoVal) (anns : Anns) :
     bObject env rec stack (f n) info inst anns = bObject env rec stack n info inst anns := by
   unfold bObject
